@@ -2,7 +2,8 @@
    Full statement (kept visible; decided per input by the harness and the correspondence):
      forall T v e, no_implicit_no_any T -> encode DER true 0 T v = Ok e ->
        exists T' w, decode BER None e = Ok (DV T' w, []) /\ encode DER true 0 T' w = Ok e /\ leaves T' w = leaves T v. *)
-From PV Require Import Base.Bytes Model.Tag Model.Types Model.Enc Model.Dec Proofs.Schemaless.
+From PV Require Import Base.Bytes Model.Tag Model.Types Model.TableTypes Model.Enc Model.Dec Gen.Tables
+     Proofs.Schemaless Proofs.TagsetShape Proofs.RoundTrip1 Proofs.SchemalessRT.
 Local Open Scope N_scope.
 
 (* the type object built for a scalar decoded without a schema carries exactly the tags met on the
@@ -19,3 +20,31 @@ Example C16_nonvacuous :
       | Ok (DV T v, []) => encode DER true 0 T v
       | _ => Err EMalformed end) = Ok [164; 8; 48; 6; 2; 1; 5; 4; 1; 97].
 Proof. split; vm_compute; reflexivity. Qed.
+
+(* For every input: a simple type with its own UNIVERSAL tag under zero or more EXPLICIT tags of any
+   non-universal class and number (no IMPLICIT tag: such a value is not self-describing), every value,
+   encoded by the BER or DER encoder and decoded WITHOUT a guiding type by any of the three decoders:
+   the result has exactly the tags that were on the wire, the base type the universal tag denotes
+   (ENUMERATED comes back as an INTEGER object carrying the ENUMERATED tag: sl_proto), the same
+   abstract content, and the trailing octets are untouched *)
+Theorem C16_schemaless_roundtrip_stage1 : forall ce cd T v b tl,
+  enc_ok ce -> univ_explicit T = true -> stage1_val ce cd T v = true ->
+  encode ce true 0 T v = Ok b -> N.of_nat (length b) <= index_max ->
+  exists T0 v', decode cd None (b ++ tl) = Ok (DV T0 v', tl)
+    /\ T0 = sl_ty T
+    /\ tagset_of T0 = tagset_of T
+    /\ base_of T0 = sl_proto (base_of T)
+    /\ abs T0 v' = abs T v.
+Proof. exact schemaless_roundtrip_stage1_codecs. Qed.
+Print Assumptions C16_schemaless_roundtrip_stage1.
+
+Example C16_schemaless_roundtrip_stage1_nonvacuous :
+  let T := TExp (mkTag Appl false 2) (TExp (mkTag Ctx true 1) TEnum) in
+  let v := VInt (-300) in
+  let b := [98; 6; 161; 4; 10; 2; 254; 212] in
+  univ_explicit T = true /\ stage1_val BER BER T v = true /\ encode BER true 0 T v = Ok b
+  /\ N.of_nat (length b) <= index_max
+  /\ decode BER None (b ++ [7; 7])
+     = Ok (DV (TExp (mkTag Appl true 2) (TExp (mkTag Ctx true 1) (TImp (utag false 10) TInt))) v, [7; 7])
+  /\ sl_ty T = TExp (mkTag Appl true 2) (TExp (mkTag Ctx true 1) (TImp (utag false 10) TInt)).
+Proof. exact schemaless_roundtrip_stage1_nonvacuous. Qed.
